@@ -8,6 +8,8 @@ From PT Require Import Base.Scalar Base.BigSum Base.Mx Model.OpGraph Model.C17Co
 (* "both graphs are consistent and of the requested length" (section (d) at the end of this file) *)
 From PT Require Import Model.Rewrites Proofs.RewritesBase Proofs.C17LenBase Proofs.C17LenAut Proofs.C17LenTree
                        Proofs.C17LenSimplify Proofs.C17LenTop.
+(* totality of from_automaton (section (e) at the end of this file) *)
+From PT Require Import Model.AutOpPath Proofs.C17AutFuel Proofs.C17AutTotal.
 Import ListNotations.
 Open Scope Z_scope.
 
@@ -50,10 +52,12 @@ Proof.
 Qed.
 Print Assumptions C17_from_automaton_consistent.
 
-(* NOT PROVED in general (validated on every generated case by check_from_automaton / check_aut_den):
-     from_automaton aut L = Some g -> glength g = Some L
-     aut_consistent aut = true -> (exists w, aut_den aut L w <> 0) -> exists g, from_automaton aut L = Some g
-   (the second says that the code's assertions never fire when a path exists). *)
+(* The two statements that were left open here are proved in sections (d) and (e):
+     from_automaton aut L = Some g -> glength g = Some L                         (C17_from_automaton_length)
+     aut_consistent aut = true -> 1 <= L -> (exists w, aut_den aut L w <> 0) -> exists g, from_automaton aut L = Some g
+                                                                                 (C17_from_automaton_total_den)
+   (the second says that the code's assertions never fire when a path exists; L >= 1 is needed: for L = 0 the code
+   raises ValueError although aut_den aut 0 [] = 1 when the two terminals coincide). *)
 
 (* ------------------------------------------------------------------------------------------------
    (b) trees.  from_optrees_raw is from_optrees up to (not including) the final simplify(), whose effect on
@@ -263,10 +267,8 @@ Theorem C17_from_automaton_assert_unreachable : forall (R : cring) (aut : autop 
 Proof. exact from_automaton_assert_unreachable. Qed.
 Print Assumptions C17_from_automaton_assert_unreachable.
 
-(* STILL NOT PROVED (validated per generated case by check_from_automaton / check_aut_den):
-     aut_consistent aut = true -> (exists w, aut_den aut L w <> 0) -> exists g, from_automaton aut L = Some g
-   i.e. that the three assertions on the active layers never fire when a path exists, and that the model's fuel
-   [cons_fuel] for the level search suffices. *)
+(* That the three assertions on the active layers never fire when a path exists, and that the model's fuel
+   [cons_fuel] for the level search suffices, is proved in section (e) below. *)
 
 (* the hypothesis [aut_consistent] is needed for the length: an automaton whose edge 2 -> 4 is missing from the
    out-list of node 2 (AutOp.is_consistent rejects it) yields a graph with a dangling node that passes
@@ -354,4 +356,98 @@ Example C17_optrees_side_conditions_needed :
   | Some g => match is_consistent g with Some false => true | _ => false end
   | None => false
   end = true.
+Proof. vm_compute. reflexivity. Qed.
+
+(* ------------------------------------------------------------------------------------------------
+   (e) Totality of from_automaton: "for all automata ... with at least one path of the requested length, and
+   all lengths L >= 1".  The hypothesis is the executable predicate [is_path aut L eids] of Model/AutOpPath.v: [eids]
+   lists L edge ids; step i leaves the current node (starting at the start terminal) along an edge that is active at
+   site i, and the last step arrives at the end terminal.  The model's error value covers every way the code can fail:
+   ValueError (L < 1, duplicate node/edge ids in add_node/add_edge, max of an empty dictionary), KeyError (dictionary
+   lookups autop.nodes[...] / autop.edges[...]), IndexError (nids_map[i][idx]), AssertionError (nids_active[0] ==
+   [terminal 0], nids_active[-1] == [terminal 1], graph.is_consistent()) and the model's own fuel for is_consistent.
+   The code's first assertion, len(nids_active) == length + 1, is not a branch of the model; it cannot fire
+   (C17_active_layers_length). *)
+Theorem C17_from_automaton_total : forall (R : cring) (aut : autop R),
+  aut_consistent aut = true -> forall L : nat, (1 <= L)%nat -> (exists eids, is_path aut L eids = true) ->
+  exists g, from_automaton aut L = Some g /\ from_automaton_r aut L = Ok g /\ from_automaton_raw aut L = Ok g.
+Proof. exact from_automaton_total. Qed.
+Print Assumptions C17_from_automaton_total.
+
+(* converse: without a path the code stops at [assert nids_active[0] == [autop.nid_terminal[0]]] *)
+Theorem C17_from_automaton_no_path_raises : forall (R : cring) (aut : autop R),
+  aut_consistent aut = true -> forall L : nat, (1 <= L)%nat -> ~ (exists eids, is_path aut L eids = true) ->
+  from_automaton_r aut L = Err EAssert.
+Proof. exact from_automaton_no_path. Qed.
+Print Assumptions C17_from_automaton_no_path_raises.
+
+Theorem C17_from_automaton_returns_iff_path : forall (R : cring) (aut : autop R),
+  aut_consistent aut = true -> forall L : nat, (1 <= L)%nat ->
+  ((exists g, from_automaton aut L = Some g) <-> (exists eids, is_path aut L eids = true)).
+Proof. exact from_automaton_some_iff. Qed.
+Print Assumptions C17_from_automaton_returns_iff_path.
+
+(* the hypothesis in terms of the path sum: some word has a non-zero coefficient *)
+Theorem C17_from_automaton_total_den : forall (R : cring) (aut : autop R),
+  aut_consistent aut = true -> forall L : nat, (1 <= L)%nat -> (exists w, aut_den aut L w <> k0 R) ->
+  exists g, from_automaton aut L = Some g.
+Proof. exact from_automaton_total_den. Qed.
+Print Assumptions C17_from_automaton_total_den.
+
+(* the model's fuel for the level search of is_consistent suffices on both constructions (this removes the
+   alternative [Err EFuel] of C17_from_automaton_assert_unreachable and the "for every fuel" of
+   C17_from_optrees_raw_consistent) *)
+Theorem C17_from_automaton_fuel_suffices : forall (R : cring) (aut : autop R) (L : nat) (g : graph R),
+  aut_consistent aut = true -> from_automaton_raw aut L = Ok g -> from_automaton_r aut L = Ok g.
+Proof. exact from_automaton_fuel_suffices. Qed.
+Print Assumptions C17_from_automaton_fuel_suffices.
+
+Theorem C17_from_optrees_raw_is_consistent : forall (R : cring) (ts : list (optree R)) (L : nat) (oid_id : Z) (g : graph R),
+  ts <> [] -> Forall (fun t => 0 <= ot_istart t) ts ->
+  from_optrees_raw ts (Z.of_nat L) oid_id = Some g -> is_consistent g = Some true.
+Proof. exact from_optrees_raw_is_consistent. Qed.
+Print Assumptions C17_from_optrees_raw_is_consistent.
+
+(* [assert len(nids_active) == length + 1] *)
+Theorem C17_active_layers_length : forall (R : cring) (aut : autop R) (L : nat) (all : list (list Z)),
+  active_layers aut L = Ok all -> length all = S L.
+Proof. exact active_layers_length. Qed.
+Print Assumptions C17_active_layers_length.
+
+(* non-vacuity: an automaton with self loops (edges 0, 1), parallel edges 0 -> 1 (edges 4, 5), a dead state 3 (entered
+   by edge 6, no way out), site-dependent activity (edge 2 only at sites 0, 1; edge 5 not at site 0) and site-dependent
+   coefficients (edge 3).  It is consistent, [2; 3; 1] and [0; 5; 1] are paths of length 3, [5; 1; 1] is not (edge 5 is
+   inactive at site 0), and the model returns a consistent graph of length 3 with the expected coefficients. *)
+Definition total_aut : autop GIring :=
+  let c (o : Z) (x : GI) : nat -> list (Z * GI) := fun _ => [(o, x)] in
+  let a : nat -> bool := fun _ => true in
+  mkautop [mknode 0 [0] [0; 2; 4; 5; 6] 0; mknode 1 [1; 3; 4; 5] [1] 0; mknode 2 [2] [3] 0; mknode 3 [6] [] 0]
+          [@mkaedge GIring 0 0 0 (c 0 (1, 0)) a; @mkaedge GIring 1 1 1 (c 0 (1, 0)) a;
+           @mkaedge GIring 2 0 2 (c 1 (1, 0)) (tab_active [true; true; false]);
+           @mkaedge GIring 3 2 1 (@tab_opics GIring [[(2, (1, 0))]; [(2, (5, 0))]; [(2, (7, 0))]]) a;
+           @mkaedge GIring 4 0 1 (c 3 (2, 0)) a; @mkaedge GIring 5 0 1 (c 4 (0, 1)) (tab_active [false; true; true]);
+           @mkaedge GIring 6 0 3 (c 5 (1, 0)) a] 0 1.
+
+Example C17_total_nonvacuous :
+  aut_consistent total_aut && is_path total_aut 3 [2; 3; 1] && is_path total_aut 3 [0; 5; 1] &&
+  negb (is_path total_aut 3 [5; 1; 1]) && negb (is_path total_aut 3 [6; 0; 0]) &&
+  match from_automaton total_aut 3 with
+  | Some g => glength_is g 3 && match is_consistent g with Some true => true | _ => false end &&
+              keqb GIring (den g [1; 2; 0]) (5, 0) && keqb GIring (den g [0; 1; 2]) (7, 0) &&
+              keqb GIring (den g [0; 4; 0]) (0, 1) && keqb GIring (den g [4; 0; 0]) (0, 0) &&
+              keqb GIring (den g [3; 0; 0]) (2, 0) && keqb GIring (den g [5; 0; 0]) (0, 0) &&
+              keqb GIring (aut_den total_aut 3 [0; 1; 2]) (7, 0)
+  | None => false
+  end = true.
+Proof. vm_compute. reflexivity. Qed.
+
+(* the converse is not vacuous either: 0 -> 2 -> 1 is a path of the underlying graph, but edge 2 is inactive at site 0
+   and edge 3 at site 1, so no path of length 2 exists and the code raises AssertionError *)
+Definition nopath_aut : autop GIring :=
+  let c (o : Z) : nat -> list (Z * GI) := fun _ => [(o, (1, 0))] in
+  mkautop [mknode 0 [] [2] 0; mknode 1 [3] [] 0; mknode 2 [2] [3] 0]
+          [@mkaedge GIring 2 0 2 (c 1) (tab_active [false; true]); @mkaedge GIring 3 2 1 (c 2) (tab_active [true; false])] 0 1.
+Example C17_no_path_nonvacuous :
+  aut_consistent nopath_aut && negb (is_path nopath_aut 2 [2; 3]) &&
+  res_graph_eqb (from_automaton_r nopath_aut 2) (Err EAssert) = true.
 Proof. vm_compute. reflexivity. Qed.
